@@ -36,6 +36,7 @@ KANI = {
     "C18": {"complete": ["u9_xorshift_is_documented_mixer", "u9_hasher_one_chunk"], "bounded": {}},
 }
 KANI_THOROUGH_EXTRA = {"C10": ["u9_hash_value_vu64_all_values"], "C12": ["u9_hash_value_vu64_all_values"]}
+KANI_THOROUGH_BOUNDED = {"C14": {"c14_bulk_get_is_elementwise_batch_4": "map <= 2 entries, batch of 4 one-byte keys (every order, repeats allowed)"}}
 VERUS_PROPS = set()   # filled from the overlay (@serves)
 # obligations that are verified in a property's closure but are not part of that property's statement
 # (the panic sites are obligations of the properties that promise "never panics": C01, C07, C08)
@@ -175,9 +176,11 @@ def do_replay(prop, path):
 def kani_leg(prop, tier):
     kcfg = KANI.get(prop)
     if not kcfg: return {}
-    hs = list(kcfg["complete"]) + (KANI_THOROUGH_EXTRA.get(prop, []) if tier == "thorough" else []) + list(kcfg["bounded"].keys())
+    hs = list(kcfg["complete"]) + (KANI_THOROUGH_EXTRA.get(prop, []) if tier == "thorough" else []) + list(kcfg["bounded"].keys()) \
+         + (list(KANI_THOROUGH_BOUNDED.get(prop, {}).keys()) if tier == "thorough" else [])
     known = run.load_known()
-    return kanileg.run(run.REPO, hs, want_playback=lambda h: run.match_known(known, prop, "kani:%s/check" % h) is None)
+    return kanileg.run(run.REPO, hs, want_playback=lambda h: run.match_known(known, prop, "kani:%s/check" % h) is None,
+                       timeout=1800 if tier == "quick" else 7200, harness_timeout=None if tier == "quick" else "3600s")
 
 def check(prop, tier, args):
     t0 = time.time()
@@ -249,13 +252,16 @@ def check(prop, tier, args):
             libfail = list(r2.library_failures)
             r1.fn_time.update(r2.fn_time)
         undecided += libfail
-        if tier == "thorough" and not fails and not rlim and not undecided:
-            # stability: two more seeds
-            for sd in (seed + 1, seed + 2):
-                r3 = run.run_verus(upath, unit, rlimit=rl, seed=sd)
+        if tier == "thorough" and not [f for f in fails if not expected(f)] and not rlim and not undecided:
+            # stability: two more seeds, and one run with a z3 process per function
+            for sd, so in ((seed + 1, False), (seed + 2, False), (seed + 3, True)):
+                r3 = run.run_verus(upath, unit, rlimit=rl, seed=sd, spinoff=so)
                 checker_cmds.append(r3.cmd)
-                if r3.failures or r3.fn_rlimit or r3.undecided:
-                    undecided.append("unstable proof under seed %d: %s" % (sd, [run_oid(f) for f in r3.failures] + list(r3.fn_rlimit) + r3.undecided))
+                bad3 = [run_oid(f) for f in r3.failures if not expected(f)]
+                # a proof found once is a proof: what fails only under another seed is reported as instability (maintenance risk), it
+                # does not un-prove anything and does not change the exit status
+                cov.setdefault("stability_runs", []).append({"seed": sd, "spinoff_all": so, "verified": r3.raw_summary.get("verified"),
+                    "not_reproved_under_this_seed": bad3 + sorted(r3.fn_rlimit) + [x[:160] for x in r3.library_failures], "tool_errors": [u[:200] for u in r3.undecided]})
         for q in rlim:
             undecided.append("resource limit exceeded in %s" % q)
         failed_fns = {f["fn"] for f in fails}
@@ -299,6 +305,7 @@ def check(prop, tier, args):
     if kcfg:
         if tier == "thorough":
             kcfg = dict(kcfg); kcfg["complete"] = list(kcfg["complete"]) + KANI_THOROUGH_EXTRA.get(prop, [])
+            kcfg["bounded"] = dict(kcfg["bounded"]); kcfg["bounded"].update(KANI_THOROUGH_BOUNDED.get(prop, {}))
         hs = list(kcfg["complete"]) + list(kcfg["bounded"].keys())
         kr = fut_kani.result()
         if kr.get("_undecided"):
